@@ -97,7 +97,7 @@ def _table():
     add("p2p_tsnetaddr", "btclib.p2p.address:TimestampedNetworkAddress", cv, cv, "both", q=[29, 30, 31])
     add("p2p_addr", "btclib.p2p.address:Addr", cv, cv, "octets", q=[0, 1, 31, 32], t=[0, 1, 2, 31, 32, 61, 62])
     add("p2p_netaddrv2", "btclib.p2p.addrv2:NetworkAddressV2", cv, cv, "both", q=range(13, 19), t=range(13, 32))
-    add("p2p_addrv2", "btclib.p2p.addrv2:AddrV2", cv, cv, "octets", q=[0, 1, 17, 18, 19], t=range(0, 32))
+    add("p2p_addrv2", "btclib.p2p.addrv2:AddrV2", cv, cv, "octets", q=[0, 1, 17, 18, 19], t=range(0, 28))
     add("p2p_version", "btclib.p2p.handshake:Version", cv, cv, "octets", q=[84, 85, 86, 87], t=range(84, 96))
     add("p2p_sendcmpct", "btclib.p2p.compact_blocks:SendCmpct", cv, cv, "octets", q=[8, 9, 10])
     add("p2p_getblocktxn", "btclib.p2p.compact_blocks:GetBlockTxn", cv, cv, "octets", q=[32, 33, 34, 35, 36], t=range(32, 42))
@@ -266,7 +266,7 @@ def tx_fields(ex, nin, nout, wit):
         back = Tx.parse(full, check_validity=False)
     except LIB_ERRORS as e:
         # the only objects that do not parse back: no input (the marker position reads as a count of zero)
-        return ex.refuse(type(e).__name__, only_when_no_inputs=(nin == 0))
+        return {"only_input_less_transactions_do_not_parse_back": nin == 0}
     same = sand(back.version == version, back.lock_time == lock, len(back.vin) == nin, len(back.vout) == nout,
                 *[sand(a.prev_out.tx_id == b.prev_out.tx_id, a.prev_out.vout == b.prev_out.vout, a.script_sig == b.script_sig,
                        a.sequence == b.sequence, len(a.script_witness.stack) == len(b.script_witness.stack),
